@@ -22,6 +22,7 @@ func runWitness(env *Env, rep *Report, name string, mk func() *Case) {
 	tmp := NewReport(rep.Property, rep.Tier, rep.Seed)
 	tmp.Known = nil
 	cs := mk()
+	cs.Name = "witness:" + cs.Name
 	env.RunJobs(1, tmp, func(w *Worker, i int) { w.RunCase(cs, tmp) })
 	for _, f := range tmp.fatal {
 		rep.Fatal("witness " + name + ": " + f)
